@@ -1715,13 +1715,12 @@ def rule_axisnorm(rows, prop):
         for f in r["facts"]:
             for field in ("a", "b", "c"):
                 v = f.get(field, "")
-                if "axis" not in v or "==" not in v:
+                if ("axis" not in v and "axes" not in v) or "==" not in v:
                     continue
                 for m in re.finditer(r"\(([^()]*) == ([^()]*)\)", v):
-                    for side in (m.group(1), m.group(2)):
-                        for nme in re.findall(r"(?:this\.|[$%])\w*axis\w*", side):
-                            other = m.group(2) if side is m.group(1) else m.group(1)
-                            if not re.search(r"[$%]\w+", other) or "axis" in other and "==" in other:
+                    for side, other in ((m.group(1), m.group(2)), (m.group(2), m.group(1))):
+                        for nme in re.findall(r"(?:this\.|[$%])\w*ax[ie]s\w*", side):
+                            if not re.search(r"[$%]\w+", other) or re.search(r"ax[ie]s", other):
                                 continue
                             key = (rf, owner.split("::")[-1], nme)
                             if key in seen:
